@@ -994,7 +994,7 @@ pub fn check_c08(tier: &str) -> i32 {
     rep.phase("boundary quantities and positions", st, json!({"depth": wide_depth, "configs": wide_cfgs.len(), "alphabet": n_wide}));
     // over a real TLS server with authorization: the role is the certificate's, character for character
     let st = crate::checks::tls::c08_tls_phase();
-    rep.phase("TLS server with authorization: certificate role x policy role", st, json!({"certificates": 3, "policy_roles": 6}));
+    rep.phase("TLS server with authorization: certificate role x policy role", st, json!({"certificates": 4, "policy_roles": 6}));
     for c in ["denied", "read-ok", "write-ok", "unconfigured-unit", "unknown-function", "invalid:fc3:count-zero", "tls-authz:allowed", "tls-authz:denied"] {
         rep.require_class(c);
     }
